@@ -43,26 +43,22 @@ def replay_file(path, repo=None, quiet=False):
 
 
 def replay_h(rep, path, repo, quiet):
-    outs = []
-    for hs in rep["hashseeds"]:
-        pool = Pool(1, [hs], log_path=os.devnull, repo=repo)
-        try:
-            res = pool.map([{"kind": "scenario", "job_id": "replay", "scenario": rep["scenario"],
-                             "oracles": rep["oracles"], "timeout": 300, "events": True}])["replay"]
-        finally:
-            pool.close()
-        if "harness_error" in res:
-            print("HARNESS-ERROR", res["harness_error"])
-            return 2
-        outs.append(res)
-    a, b = outs
-    step = first_divergence(a["events"], b["events"])
-    if step is not None and step == rep["expected"]["step"]:
+    """Nondeterminism: run the scenario in fresh interpreter processes under the two recorded hash seeds
+    (they may be equal: address-dependent behaviour) and compare every observable semantically."""
+    from .diverge import investigate
+
+    job = {"kind": "scenario", "scenario": rep["scenario"], "oracles": rep["oracles"], "timeout": 300}
+    ha, hb = rep["hashseeds"]
+    inv = investigate(job, ha, hb, repo=repo, tries=8)
+    if inv["status"] == "formulae":
         print(f"VIOLATION property=C07 replay={path}")
-        print(f"  oracle=H: under PYTHONHASHSEED {rep['hashseeds'][0]} and {rep['hashseeds'][1]} the same operation "
-              f"sequence gives different observable outcomes at step {step}")
+        print(f"  oracle=H: in two interpreter processes (PYTHONHASHSEED {ha} and {hb}) the same operation "
+              f"sequence gives different observable outcomes at step {inv['step']}: {inv['detail']}")
         return 1
-    print(f"did not reproduce: first divergence at {step}, expected {rep['expected']['step']}")
+    if inv["status"] == "harness":
+        print("HARNESS-ERROR", inv["detail"])
+        return 2
+    print("did not reproduce: 8 fresh process pairs agreed on every observable")
     return 3
 
 
